@@ -1690,8 +1690,8 @@ PROPS = {c.id: c for c in (C01, C02, C03, C04, C05, C06, C07, C08, C09, C10, C11
 TRUSTED_BASE = [
     "Coq 8.16.1 kernel (coqc; coqchk in the thorough tier); vm_compute for Examples; no native_compute",
     "no axioms: every Print Assumptions is 'Closed under the global context'",
-    "hand-written Gallina model of rhymuweb (request.rs, response.rs, chunked_body.rs, coding.rs, lib.rs) and of rhymessage's header parser/collection",
-    "oracles (function parameters of the model, real libraries at run time): rhymuri Uri::parse/Display, flate2 Gz/Zlib/Deflate decoders, encoding_rs for_label/decode",
+    "hand-written Gallina model of rhymuweb (request.rs, response.rs, chunked_body.rs, coding.rs, lib.rs), of rhymessage's header parser/collection, and of flate2 1.1.10 / miniz_oxide 0.9.1 (raw inflate, zlib, gzip: Model/Inflate.v)",
+    "oracles (function parameters of the model, real libraries at run time): rhymuri Uri::parse/Display, encoding_rs for_label/decode; flate2 Gz/Zlib/Deflate decoders (called directly) decide each decode case and are compared with Model/Inflate.v on every stream",
     "correspondence check: Rust harness (tools/../harness), OCaml driver (hex, integer conversion, canonical printing), extraction with ExtrOcamlBasic only (bool, option, unit, prod, list, sumbool -> OCaml types; no Extract Constant)",
     "64-bit usize; error categories instead of error payloads",
 ]
